@@ -18,6 +18,8 @@
 #include <sstream>
 #include <fstream>
 #include <set>
+#include <map>
+#include <vector>
 #include <unistd.h>
 #include <sys/stat.h>
 
@@ -215,49 +217,57 @@ static std::string refs_json( instanceRefs_t * refs ) {
 }
 
 static std::string inverse_json( SDAI_Application_instance * se ) {
+    // std::map order is pointer order: report sorted by name so the observation is layout-independent.
+    // The inverse attributes of an externally mapped instance live in its parts: per attribute the union over the parts is reported.
+    std::map<std::string, std::pair<bool, std::vector<int> > > byname;
+    std::vector<SDAI_Application_instance *> holders;
+    if( se->IsComplex() ) {
+        for( STEPcomplex * p = ( ( STEPcomplex * )se )->head; p; p = p->sc ) {
+            holders.push_back( p );
+        }
+    } else {
+        holders.push_back( se );
+    }
+    for( SDAI_Application_instance * h : holders ) {
+        const SDAI_Application_instance::iAMap_t & m = h->getInvAttrs();
+        for( auto it = m.begin(); it != m.end(); ++it ) {
+            const Inverse_attribute * ia = it->first;
+            bool aggr = ia->IsAggrType() != 0;   // the same rule the generated accessors follow
+            std::string key = std::string( ia->Name() ? ia->Name() : "" );
+            if( ia->Owner().Name() ) {
+                key = std::string( ia->Owner().Name() ) + "." + key;
+            }
+            std::pair<bool, std::vector<int> > & rec = byname[key];
+            rec.first = aggr;
+            std::vector<int> ids;
+            if( aggr ) {
+                EntityAggregate * ea = it->second.a;
+                if( ea ) {
+                    for( EntityNode * en = ( EntityNode * )ea->GetHead(); en; en = ( EntityNode * )en->NextNode() ) {
+                        ids.push_back( en->node ? en->node->StepFileId() : -1 );
+                    }
+                }
+            } else if( it->second.i ) {
+                ids.push_back( it->second.i->StepFileId() );
+            }
+            if( holders.size() == 1 || rec.second.empty() ) {
+                rec.second = ids;       // a simple instance: as held (duplicates included); a part: the first non-empty copy
+            }
+        }
+    }
     std::ostringstream o;
     o << "{";
     bool first = true;
-    const SDAI_Application_instance::iAMap_t & m = se->getInvAttrs();
-    // std::map order is pointer order: report sorted by name so the observation is layout-independent
-    std::map<std::string, std::string> byname;
-    for( auto it = m.begin(); it != m.end(); ++it ) {
-        const Inverse_attribute * ia = it->first;
-        std::ostringstream v;
-        bool aggr = ia->IsAggrType() != 0;   // the same rule the generated accessors follow
-        v << "{\"aggr\":" << ( aggr ? "true" : "false" ) << ",\"ids\":[";
-        if( aggr ) {
-            EntityAggregate * ea = it->second.a;
-            if( ea ) {
-                EntityNode * en = ( EntityNode * )ea->GetHead();
-                bool f2 = true;
-                while( en ) {
-                    if( !f2 ) {
-                        v << ",";
-                    }
-                    f2 = false;
-                    v << ( en->node ? en->node->StepFileId() : -1 );
-                    en = ( EntityNode * )en->NextNode();
-                }
-            }
-        } else {
-            if( it->second.i ) {
-                v << it->second.i->StepFileId();
-            }
-        }
-        v << "]}";
-        std::string key = std::string( ia->Name() ? ia->Name() : "" );
-        if( ia->Owner().Name() ) {
-            key = std::string( ia->Owner().Name() ) + "." + key;
-        }
-        byname[key] = v.str();
-    }
     for( auto & kv : byname ) {
         if( !first ) {
             o << ",";
         }
         first = false;
-        o << jq( kv.first ) << ":" << kv.second;
+        o << jq( kv.first ) << ":{\"aggr\":" << ( kv.second.first ? "true" : "false" ) << ",\"ids\":[";
+        for( size_t k = 0; k < kv.second.second.size(); k++ ) {
+            o << ( k ? "," : "" ) << kv.second.second[k];
+        }
+        o << "]}";
     }
     o << "}";
     return o.str();
